@@ -231,7 +231,14 @@ func init() {
 			nonTLS := vs.Choose("nontls", 2) == 1
 			w.script = []int{pathRelayDown}
 			w.relayURL = []string{u}
-			x.Outcome(fmt.Sprintf("url=%q pattern=%q nonTLS=%v", u, pat, nonTLS))
+			// optionally an earlier session on the same proxy whose relay URL is a good one (TLS, inside every
+			// pattern used here): whatever the proxy remembers from it must not change the verdict on the next
+			prior := cfgInt(x, "prior", 0) > 0 && vs.Choose("prior", 2) == 1
+			if prior {
+				w.script = []int{pathRelayDown, pathRelayDown}
+				w.relayURL = []string{"wss://snowflake.torproject.net/", u}
+			}
+			x.Outcome(fmt.Sprintf("url=%q pattern=%q nonTLS=%v prior=%v", u, pat, nonTLS, prior))
 			w.sf = &SnowflakeProxy{Capacity: 1, RelayURL: "wss://snowflake.torproject.net/", RelayDomainNamePattern: pat, AllowNonTLSRelay: nonTLS, ProxyType: "standalone",
 				EventDispatcher: event.NewSnowflakeEventDispatcher(), shutdown: make(chan struct{})}
 			w.install()
@@ -249,7 +256,15 @@ func init() {
 			}
 			m := namematcher.NewNameMatcher(w.sf.RelayDomainNamePattern)
 			x.Outcome(fmt.Sprintf("dialled=%v count=%d", w.dialled, tokens.count()))
-			for _, d := range w.dialled {
+			judged := w.dialled
+			if len(w.relayURL) == 2 {
+				// the earlier session's dial (its URL is acceptable under every pattern used) is not the one judged
+				if len(judged) > 0 && judged[0] == "snowflake.torproject.net:443" {
+					judged = judged[1:]
+				}
+				w.relayURL = w.relayURL[1:]
+			}
+			for _, d := range judged {
 				host := d
 				if h, _, err := netSplit(d); err == nil {
 					host = h
